@@ -33,20 +33,26 @@ func ruleStableMeansStable() check.Rule {
 						}
 						c.Inc("stable_operators", 1)
 						key := model.ShortPkg(p.PkgPath) + "." + fd.Name.Name + "/stable-sort"
-						var bad *ast.CallExpr
+						// the sort functions this operator calls or hands on as a function value (sortWith(cmp, sort.SliceStable))
+						var bad ast.Expr
 						good := false
 						ast.Inspect(fd.Body, func(n ast.Node) bool {
-							call, ok := n.(*ast.CallExpr)
-							if !ok {
+							var fn *types.Func
+							var at ast.Expr
+							switch y := n.(type) {
+							case *ast.SelectorExpr:
+								fn, _ = info.Uses[y.Sel].(*types.Func)
+								at = y
+							case *ast.Ident:
+								fn, _ = info.Uses[y].(*types.Func)
+								at = y
+							}
+							if fn == nil || fn.Pkg() == nil {
 								return true
 							}
-							cl := model.Callee(info, call)
-							if cl == nil || cl.Pkg() == nil {
-								return true
-							}
-							name := cl.Pkg().Name() + "." + cl.Name()
+							name := fn.Pkg().Name() + "." + fn.Name()
 							if unstable[name] {
-								bad = call
+								bad = at
 							}
 							if stable[name] {
 								good = true
@@ -55,7 +61,7 @@ func ruleStableMeansStable() check.Rule {
 						})
 						switch {
 						case bad != nil:
-							c.Report(armed, key, bad.Pos(), "%s sorts with %s, which is documented as not stable: elements that compare equal can be reordered", fd.Name.Name, types.ExprString(bad.Fun))
+							c.Report(armed, key, bad.Pos(), "%s sorts with %s, which is documented as not stable: elements that compare equal can be reordered", fd.Name.Name, types.ExprString(bad))
 						case good:
 							if armed {
 								c.OK(key, fd.Pos(), "sorts with a stable algorithm")
